@@ -70,17 +70,32 @@ inline vector<std::pair<uint32_t, string>> parseList(const string& s) {
   return v;
 }
 
+// ---- configured range presets (value texts as written in a definition: from-to) --------------------
+static const char* const RANGES[] = {
+  "", "1-10", "-50--10", "-50-0", "0-50", "-100-100", "10-100", "0.5-10", "-5--0.5", "-5.5-5.5",
+};
+static const int NRANGES = 10;
+
 // ---- a field configuration ------------------------------------------------------------------
 struct Cfg {
   rc::FieldSpec fs;
   int listId = 0;
+  int rangeId = 0;
+  string hist;       // definitions of the same type created earlier in this process (the type cache is process-global)
+  string cachedKey;
   int idx = 0;
   const DataField* field = nullptr;
   int createRc = 0;
   string createErr;
+  string token() const {
+    return fs.typeText() + "/" + std::to_string(fs.div) + "/" + std::to_string(listId) + "/" + std::to_string(rangeId) +
+           "/" + (fs.master ? "m" : "s");
+  }
   string key() const {  // the configuration part of a case string
+    if (!cachedKey.empty()) return cachedKey;
     return "t=" + fs.typeText() + ";d=" + std::to_string(fs.div) + ";v=" + std::to_string(listId) +
-           ";p=" + (fs.master ? "m" : "s");
+           (rangeId ? ";r=" + std::to_string(rangeId) : string("")) + ";p=" + (fs.master ? "m" : "s") +
+           (hist.empty() ? string("") : ";hist=" + hist);
   }
 };
 
@@ -94,6 +109,7 @@ inline void createField(Cfg* c) {
   rows[0]["type"] = c->fs.typeText();
   if (c->listId > 0) rows[0]["divisor/values"] = LISTS[c->listId];
   else if (c->fs.div != 0) rows[0]["divisor/values"] = std::to_string(c->fs.div);
+  if (c->rangeId > 0) rows[0]["range"] = RANGES[c->rangeId];
   const DataField* f = nullptr;
   string err;
   result_t r = DataField::create(false, false, false, MAX_LEN, g_templates, &rows, &err, &f);
@@ -102,7 +118,40 @@ inline void createField(Cfg* c) {
   c->field = r == RESULT_OK ? f : nullptr;
 }
 
-inline bool makeCfg(const string& typeText, int div, int listId, bool master, Cfg* c) {
+// exact raw bound of a range text part (value * den / mul must be an integer)
+inline bool rangeBound(const rc::FieldSpec& fs, const string& part, int64_t* out) {
+  rc::Dec d = rc::parseDec(part);
+  if (!d.ok) return false;
+  rc::i128 num = (d.neg ? -d.mant : d.mant) * fs.den();
+  rc::i128 den = fs.mul();
+  if (d.exp10 >= 0) num *= rc::pow10i(d.exp10); else den *= rc::pow10i(-d.exp10);
+  if (num % den != 0) return false;
+  *out = static_cast<int64_t>(num / den);
+  return true;
+}
+
+inline bool makeCfg(const string& typeText, int div, int listId, bool master, Cfg* c, int rangeId = 0,
+                    const string& hist = "") {
+  if (!hist.empty()) {  // rebuild the definition history of this type first (same order as in the enumeration)
+    size_t pos = 0;
+    while (pos < hist.size()) {
+      size_t e = hist.find(',', pos);
+      if (e == string::npos) e = hist.size();
+      string tok = hist.substr(pos, e - pos);
+      vector<string> p;
+      size_t q = 0;
+      while (q <= tok.size()) { size_t s = tok.find('/', q); if (s == string::npos) s = tok.size(); p.push_back(tok.substr(q, s - q)); q = s + 1; }
+      if (p.size() == 5) {
+        Cfg h;
+        if (makeCfg(p[0], atoi(p[1].c_str()), atoi(p[2].c_str()), p[4] == "m", &h, atoi(p[3].c_str()))) {
+          delete h.field;
+          h.field = nullptr;
+        }
+      }
+      pos = e + 1;
+    }
+  }
+  c->hist = hist;
   const rc::TypeSpec* t = rc::findType(typeText);
   int len = 0;
   if (t == nullptr) {
@@ -120,15 +169,28 @@ inline bool makeCfg(const string& typeText, int div, int listId, bool master, Cf
   c->fs.master = master;
   c->listId = listId;
   c->fs.values = parseList(LISTS[listId]);
+  c->rangeId = rangeId;
+  if (rangeId > 0) {
+    string r = RANGES[rangeId];
+    size_t sep = r.find('-', 1);
+    if (sep == string::npos || !rangeBound(c->fs, r.substr(0, sep), &c->fs.rlo) || !rangeBound(c->fs, r.substr(sep + 1), &c->fs.rhi)) {
+      fprintf(stderr, "internal: range %s not exact for %s\n", r.c_str(), typeText.c_str());
+      exit(5);
+    }
+    c->fs.hasRange = true;
+  }
   createField(c);
+  c->cachedKey = "";
+  c->cachedKey = c->key();
   return true;
 }
 
 inline bool cfgFromCase(const std::map<string, string>& m, Cfg* c) {
   auto g = [&](const char* k, const char* d) { auto it = m.find(k); return it == m.end() ? string(d) : it->second; };
   int v = atoi(g("v", "0").c_str());
-  if (v < 0 || v >= NLISTS) return false;
-  return makeCfg(g("t", ""), atoi(g("d", "0").c_str()), v, g("p", "s") == "m", c);
+  int r = atoi(g("r", "0").c_str());
+  if (v < 0 || v >= NLISTS || r < 0 || r >= NRANGES) return false;
+  return makeCfg(g("t", ""), atoi(g("d", "0").c_str()), v, g("p", "s") == "m", c, r, g("hist", ""));
 }
 
 // ---- running the real code --------------------------------------------------------------------
@@ -325,9 +387,20 @@ struct Enumerator {
   std::map<string, uint64_t> counters;
 
   // expectCreate: 1 must succeed, 0 may fail (then skipped), -1 must fail
-  bool openCfg(Cfg* c, const string& typeText, int div, int listId, bool master, int expectCreate) {
+  std::map<string, string> histByType;  // type name -> tokens of the definitions created so far
+  bool openCfg(Cfg* c, const string& typeText, int div, int listId, bool master, int expectCreate, int rangeId = 0) {
     c->idx = cfgIdx++;
-    if (!makeCfg(typeText, div, listId, master, c)) {
+    string base = typeText.substr(0, typeText.find(':'));
+    string before = histByType[base];
+    bool made = makeCfg(typeText, div, listId, master, c, rangeId);
+    bool cached = made && (rc::isNumericKind(c->fs.t->kind) || c->fs.t->kind == rc::K_WDAY || c->fs.t->kind == rc::K_TEM);
+    if (made && cached) {  // only number types go through the process-global cache of derived types
+      c->hist = before;
+      c->cachedKey = "";
+      c->cachedKey = c->key();
+      histByType[base] += (before.empty() ? "" : ",") + c->token();
+    }
+    if (!made) {
       fprintf(stderr, "internal: unknown type %s\n", typeText.c_str());
       exit(5);
     }
@@ -607,6 +680,27 @@ struct Enumerator {
       Cfg bad;
       openCfg(&bad, string(name) + ":2", 10, 0, false, -1);
       closeCfg(&bad);
+    }
+  }
+
+  // configured ranges with every sign combination of the bounds, signed and unsigned, with and without divisor
+  void rangeTypes() {
+    struct { const char* type; int div; int range; } L[] = {
+      {"SCH", 0, 1}, {"SCH", 0, 2}, {"SCH", 0, 3}, {"SCH", 0, 4}, {"SCH", 0, 5}, {"S1L", 0, 1}, {"S1L", 0, 2},
+      {"SIN", 0, 1}, {"SIN", 0, 2}, {"SIN", 0, 3}, {"SIN", 0, 5}, {"SIR", 0, 4}, {"S3N", 0, 1}, {"S3N", 0, 2}, {"SLG", 0, 1},
+      {"SLG", 0, 2}, {"SLR", 0, 5}, {"D2C", 0, 7}, {"D2C", 0, 8}, {"D2C", 0, 9}, {"D2C", 0, 1}, {"D2B", 0, 7}, {"D2B", 0, 8},
+      {"FLT", 0, 7}, {"FLT", 0, 8}, {"FLR", 0, 9}, {"SCH", 10, 7}, {"SCH", 10, 8}, {"SCH", 10, 9}, {"SIN", -10, 5},
+      {"SIN", -10, 6}, {"SIN", 100, 8}, {"UCH", 0, 6}, {"UCH", 0, 4}, {"UCH", 0, 1}, {"U1L", 0, 6}, {"UIN", 0, 6}, {"UIR", 0, 4},
+      {"U3N", 0, 6}, {"ULG", 0, 6}, {"ULR", 0, 1}, {"D1C", 0, 7}, {"D1C", 0, 4}, {"UCH", 10, 7}, {"UIN", -10, 6}, {"BCD", 0, 1},
+      {"BCD:2", 0, 6}, {"HCD:1", 0, 4}, {"PIN", 0, 6},
+    };
+    for (auto& l : L) {
+      if (stop()) break;
+      Cfg c;
+      if (!openCfg(&c, l.type, l.div, 0, false, 1, l.range)) continue;
+      const rc::TypeSpec& t = *c.fs.t;
+      forRawDomain(t, t.bytes, false, &P, [&](const uint8_t* b) { eval(c, b, t.bytes, FM_TEXT_JSON); });
+      closeCfg(&c);
     }
   }
 
